@@ -114,6 +114,156 @@ theorem aget_applyCli_some (schema : List (Str × Tag × PyVal)) (seps : List (S
         · simp at hr
         · exact ih _ hnd.2 h hr
 
+/-! ### the argparse namespace built from the (dest, action, default) table -/
+
+/-- every attribute of the namespace is a `dest` of the table -/
+theorem aget_cliNamespace_not_mem (table : List (Str × CliKind × Option PyVal)) (given : Settings) (k : Str)
+    (h : k ∉ table.map (·.1)) : aget k (cliNamespace table given) = none := by
+  induction table with
+  | nil => rfl
+  | cons e r ih =>
+    obtain ⟨d, kd, dl⟩ := e
+    simp only [List.map_cons, List.mem_cons, not_or] at h
+    have hr := ih h.2
+    have hne : (d == k) = false := by simpa using (Ne.symm h.1)
+    simp only [cliNamespace]
+    split
+    · simp [aget, hne, hr]
+    · split
+      · simp [aget, hne, hr]
+      · exact hr
+
+/-- when every default is `None`, an option that was not given is not in the namespace -/
+theorem aget_cliNamespace_none (table : List (Str × CliKind × Option PyVal)) (given : Settings) (k : Str)
+    (hdef : ∀ e ∈ table, e.2.2 = none) (h : aget k given = none) :
+    aget k (cliNamespace table given) = none := by
+  induction table with
+  | nil => rfl
+  | cons e r ih =>
+    obtain ⟨d, kd, dl⟩ := e
+    have hd : dl = none := hdef (d, kd, dl) (by simp)
+    have hr := ih (fun e he => hdef e (by simp [he]))
+    subst hd
+    simp only [cliNamespace]
+    by_cases hk : d = k
+    · subst hk
+      simp [h, hr]
+    · have hne : (d == k) = false := by simpa using hk
+      split
+      · simp [aget, hne, hr]
+      · exact hr
+
+/-- when every default is `None`, an option of the table that was given holds the given value -/
+theorem aget_cliNamespace_given (table : List (Str × CliKind × Option PyVal)) (given : Settings) (k : Str)
+    (hdef : ∀ e ∈ table, e.2.2 = none) (hk : k ∈ table.map (·.1)) :
+    aget k (cliNamespace table given) = aget k given := by
+  induction table with
+  | nil => simp at hk
+  | cons e r ih =>
+    obtain ⟨d, kd, dl⟩ := e
+    have hd : dl = none := hdef (d, kd, dl) (by simp)
+    subst hd
+    by_cases hdk : d = k
+    · subst hdk
+      simp only [cliNamespace]
+      cases hg : aget d given with
+      | some v => simp [aget]
+      | none => simpa using aget_cliNamespace_none r given d (fun e he => hdef e (by simp [he])) hg
+    · have hne : (d == k) = false := by simpa using hdk
+      have hk' : k ∈ r.map (·.1) := by
+        simp only [List.map_cons, List.mem_cons] at hk
+        rcases hk with hk | hk
+        · exact absurd hk.symm hdk
+        · exact hk
+      have hr := ih (fun e he => hdef e (by simp [he])) hk'
+      simp only [cliNamespace]
+      split
+      · simp [aget, hne, hr]
+      · exact hr
+
+/-- the attribute names of the namespace are a sublist of the table's `dest`s -/
+theorem cliNamespace_keys_sublist (table : List (Str × CliKind × Option PyVal)) (given : Settings) :
+    ((cliNamespace table given).map (·.1)).Sublist (table.map (·.1)) := by
+  induction table with
+  | nil => simp [cliNamespace]
+  | cons e r ih =>
+    obtain ⟨d, kd, dl⟩ := e
+    simp only [cliNamespace]
+    split
+    · simpa using ih
+    · split
+      · simpa using ih
+      · exact List.Sublist.cons _ ih
+
+theorem cliNamespace_keys_nodup (table : List (Str × CliKind × Option PyVal)) (given : Settings)
+    (h : (table.map (·.1)).Nodup) : ((cliNamespace table given).map (·.1)).Nodup :=
+  List.Nodup.sublist (cliNamespace_keys_sublist table given) h
+
+/-- a default that is not `None` is in the namespace although the option was not given -/
+theorem aget_cliNamespace_default (table : List (Str × CliKind × Option PyVal)) (given : Settings)
+    (k : Str) (kd : CliKind) (d : PyVal) (r : List (Str × CliKind × Option PyVal))
+    (ht : table = (k, kd, some d) :: r) (h : aget k given = none) :
+    aget k (cliNamespace table given) = some d := by
+  subst ht
+  simp [cliNamespace, h, aget]
+
+/-! ### `extra_mods` and the built-in module table -/
+
+theorem aget_overlayMods_none (mods d : List (Str × Atom)) (k : Str) (h : aget k mods = none) :
+    aget k (overlayMods mods d) = aget k d := by
+  induction mods generalizing d with
+  | nil => rfl
+  | cons e r ih =>
+    obtain ⟨k', v'⟩ := e
+    by_cases hk : k' = k
+    · simp [aget, hk] at h
+    · simp [aget, hk] at h
+      simp [overlayMods, ih _ h, aget_aset_ne _ _ _ _ (Ne.symm hk)]
+
+theorem aget_overlayMods_some (mods d : List (Str × Atom)) (k : Str) (v : Atom)
+    (hnd : (mods.map (·.1)).Nodup) (h : aget k mods = some v) :
+    aget k (overlayMods mods d) = some v := by
+  induction mods generalizing d with
+  | nil => simp [aget] at h
+  | cons e r ih =>
+    obtain ⟨k', v'⟩ := e
+    rw [List.map_cons, List.nodup_cons] at hnd
+    by_cases hk : k' = k
+    · subst hk
+      simp [aget] at h
+      subst h
+      have hr : aget k' r = none := aget_none_of_not_mem _ _ hnd.1
+      simp [overlayMods, aget_overlayMods_none _ _ _ hr, aget_aset_eq]
+    · simp [aget, hk] at h
+      simp [overlayMods]
+      exact ih _ hnd.2 h
+
+theorem aget_updateAll_not_mem (intrinsic : List (Str × Str)) (d : List (Str × Atom)) (k : Str)
+    (h : k ∉ intrinsic.map (·.1)) : aget k (updateAll intrinsic d) = aget k d := by
+  induction intrinsic generalizing d with
+  | nil => rfl
+  | cons e r ih =>
+    obtain ⟨k', v'⟩ := e
+    simp only [List.map_cons, List.mem_cons, not_or] at h
+    simp [updateAll, ih _ h.2, aget_aset_ne _ _ _ _ h.1]
+
+theorem aget_updateAll_mem (intrinsic : List (Str × Str)) (d : List (Str × Atom)) (k : Str)
+    (h : k ∈ intrinsic.map (·.1)) : ∃ u, (k, u) ∈ intrinsic ∧ aget k (updateAll intrinsic d) = some (.str u) := by
+  induction intrinsic generalizing d with
+  | nil => simp at h
+  | cons e r ih =>
+    obtain ⟨k', v'⟩ := e
+    by_cases hr : k ∈ r.map (·.1)
+    · obtain ⟨u, hu, hg⟩ := ih (aset k' (.str v') d) hr
+      exact ⟨u, by simp [hu], by simpa [updateAll] using hg⟩
+    · have hk : k = k' := by
+        simp only [List.map_cons, List.mem_cons] at h
+        rcases h with h | h
+        · exact h
+        · exact absurd h hr
+      subst hk
+      exact ⟨v', by simp, by simp [updateAll, aget_updateAll_not_mem _ _ _ hr, aget_aset_eq]⟩
+
 theorem aget_overlay_none (schema : List (Str × Tag × PyVal)) (kw s s' : Settings) (k : Str)
     (h : aget k kw = none) (hr : overlay schema kw s = .ok s') : aget k s' = aget k s := by
   induction kw generalizing s with
